@@ -239,7 +239,20 @@ class StmtMixin:
             if status is True:
                 # the conversion raised and the handler runs (value unchanged)
                 return self.exec_block(h.body, st) if not self.only_pass(h.body) else st
-            if isinstance(v, Param) and not self.only_pass(h.body):
+            arg = value.args[0] if value.args else None
+            same_name = isinstance(target, ast.Name) and isinstance(arg, ast.Name) and target.id == arg.id
+            fallback = (len(h.body) == 1 and isinstance(h.body[0], ast.Assign) and len(h.body[0].targets) == 1
+                        and isinstance(h.body[0].targets[0], ast.Name) and isinstance(target, ast.Name)
+                        and h.body[0].targets[0].id == target.id and isinstance(h.body[0].value, ast.Name)
+                        and isinstance(arg, ast.Name) and h.body[0].value.id == arg.id)
+            if isinstance(v, Param) and fallback:
+                # try: key = int(x, 0)  except: key = x   --  the same "integer it spells, else the spelling itself" as
+                # rebinding x under `except: pass`, delivered under another name
+                pass
+            elif isinstance(v, Param) and self.only_pass(h.body):
+                if target is not None and not same_name:
+                    raise Unsupported('spellings of {} that are not integers leave {} unbound'.format(v.name, unparse(target)))
+            elif isinstance(v, Param):
                 # spellings that are not integers take the handler; it must refuse them (the operand stays an integer)
                 probe = self.exec_block(h.body, st.clone())
                 if probe is not None:
